@@ -176,6 +176,7 @@ struct Shm {
   std::atomic<u64> set_used;
   std::atomic<u64> set_saturated;
   std::atomic<u64> tsan_reports;
+  std::atomic<u64> hb_syncs, hb_checks, hb_disabled;  // happens-before monitor: sync events seen, plain accesses checked, cases it gave up on
   std::atomic<u64> reruns;
   std::atomic<u64> set[kSetSize];
 };
@@ -459,6 +460,26 @@ struct Ctx {
 };
 
 inline Ctx* g_ctx = nullptr;
+
+}  // namespace vf
+#include "vf_hb.hpp"
+namespace vf {
+
+#if VF_FIBER
+inline u64 hb::CurrentFiberId() noexcept {
+  auto* f = yaclib::fault::Scheduler::Current();
+  return f != nullptr ? static_cast<u64>(f->GetId()) : 0;
+}
+// annotated plain accesses: the words a producer writes before publishing / an observer reads after observing
+#  define VF_W(x, props) ::vf::hb::Write(&(x), #x, props)
+#  define VF_R(x, props) ::vf::hb::Read(&(x), #x, props)
+#else
+inline u64 hb::CurrentFiberId() noexcept {
+  return 0;
+}
+#  define VF_W(x, props) ((void)0)
+#  define VF_R(x, props) ((void)0)
+#endif
 
 ////////////////////////////////////////////////////////////////////////////////////////////////////
 // interleaving trace (fiber resume hook)
@@ -797,6 +818,9 @@ inline CaseResult Execute(const Cell& cell, int cell_id, u64 idx, int pass, bool
     yaclib::fault::Scheduler::Set(&sched);
     ApplyParams(ctx.p);
     g_trace.Reset();
+    hb::Reset();
+    hb::g.on = true;
+    u64 hb_s0 = hb::g.syncs, hb_c0 = hb::g.checks;
     long bal0 = g_news.load(kRlx) - g_deletes.load(kRlx);
     bool done = false;
     {
@@ -819,6 +843,16 @@ inline CaseResult Execute(const Cell& cell, int cell_id, u64 idx, int pass, bool
     }
     yaclib::fault::Scheduler::Set(nullptr);
     res.alloc_delta = (g_news.load(kRlx) - g_deletes.load(kRlx)) - bal0;
+    hb::g.on = false;
+    if (pass == 0) {
+      g_shm->hb_syncs.fetch_add(hb::g.syncs - hb_s0, kRlx);
+      g_shm->hb_checks.fetch_add(hb::g.checks - hb_c0, kRlx);
+      g_shm->hb_disabled.fetch_add(hb::g.disabled ? 1 : 0, kRlx);
+    }
+    if (hb::g.race.found) {
+      std::string oracle = std::string("hb-race@") + hb::g.race.label;
+      ctx.Fail(oracle.c_str(), hb::g.race.props, "%s", hb::g.race.text);
+    }
   }
 #else
   ApplyParams(ctx.p);
@@ -1134,9 +1168,10 @@ inline void WriteSummary(FILE* out, double wall, bool complete) {
                 (unsigned long long)g_cfg.seed, wall, complete ? "true" : "false",
                 (unsigned long long)g_shm->inconclusive.load(), (unsigned long long)g_shm->crashes.load());
   s += b;
-  std::snprintf(b, sizeof b, "\"set_saturated\":%llu,\"reruns\":%llu,\"tsan_reports\":%llu,\"violations_total\":%llu,\"cells\":[",
+  std::snprintf(b, sizeof b, "\"set_saturated\":%llu,\"reruns\":%llu,\"tsan_reports\":%llu,\"hb_sync_events\":%llu,\"hb_plain_accesses_checked\":%llu,\"hb_cases_given_up\":%llu,\"violations_total\":%llu,\"cells\":[",
                 (unsigned long long)g_shm->set_saturated.load(), (unsigned long long)g_shm->reruns.load(),
-                (unsigned long long)g_shm->tsan_reports.load(),
+                (unsigned long long)g_shm->tsan_reports.load(), (unsigned long long)g_shm->hb_syncs.load(),
+                (unsigned long long)g_shm->hb_checks.load(), (unsigned long long)g_shm->hb_disabled.load(),
                 (unsigned long long)g_shm->viol_total.load());
   s += b;
   bool first = true;
@@ -1302,6 +1337,7 @@ inline int Main(int argc, char** argv, const char* family) {
   yaclib::fiber::SetStackSize(64);
   yaclib::fiber::SetHardwareConcurrency(4);
   yaclib::fault::SetVerifResumeHook(g_raw_hook != nullptr ? g_raw_hook : &ResumeHook);
+  yaclib::detail::gVerifSyncHook = &hb::OnSync;
 #endif
 
   if (g_cfg.one) {
